@@ -15,6 +15,15 @@ VERIF = os.path.dirname(os.path.dirname(os.path.abspath(__file__)))
 MARK = "VERIF_BOOTSTRAPPED"
 
 
+def _install_lock_shim():
+    # minimal copy of the import-time part of sim.trace.install_lock_shim: trace.py imports
+    # ovld paths from this module, so the shim has to be reachable before ovld is imported.
+    import importlib
+
+    tr = importlib.import_module("sim.trace")
+    tr.install_lock_shim()
+
+
 def ensure_env(hashseed="0", aslr_off=True):
     if os.environ.get(MARK) != "1":
         env = dict(os.environ)
@@ -38,6 +47,7 @@ def ensure_env(hashseed="0", aslr_off=True):
         sys.path.insert(0, SRC)
     if VERIF not in sys.path:
         sys.path.insert(1, VERIF)
+    _install_lock_shim()
     import ovld
 
     real = os.path.realpath(ovld.__file__)
